@@ -288,6 +288,15 @@ func (x *Exec) callByContract(fr *Frame, st *State, callee *ssa.Function, c *Con
 	st.alloc = na
 	res := x.freshResults(st, "r."+relName(callee), callee.Signature.Results())
 	nf.results = res
+	// names bound inside the callee's body (before <callee> bind n = e) are unknown constants for the caller: the
+	// postconditions that mention them hold for some value (an integer: binds name indices)
+	for _, cl := range c.Clauses {
+		if cl.Kind == "bind" {
+			if _, ok := nf.lets[cl.Bind]; !ok {
+				nf.lets[cl.Bind] = &Val{T: Fresh("bound."+cl.Bind, SInt), Typ: types.Typ[types.Int]}
+			}
+		}
+	}
 	for _, r := range x.evalClauses(nf, st, c.clauses("ensures", 0), nil, "ensures") {
 		x.assumeFact(st, r.t)
 	}
